@@ -98,7 +98,7 @@ Lemma ip_inv_step : forall s e, ip_inv s -> ip_inv (ip_step s e).
 Proof.
   intros s e H. destruct e; cbn [ip_step]; try exact H; try (apply ip_inv_deliver_at; exact H).
   - destruct (i_closed s); (eapply ip_inv_send; [..|exact H]; reflexivity).
-  - destruct (i_ep s) eqn:E; [exact H|]. rewrite <- E. apply ip_inv_deliver. exact H.
+  - destruct (i_ep s) eqn:E; [exact H|]. apply ip_inv_deliver. exact H.
   - apply ip_inv_deliver. revert H. apply ip_inv_same; reflexivity.
   - destruct (i_pend s); [exact H|]. revert H. apply ip_inv_same; reflexivity.
   - destruct (i_pend s); [exact H|]. apply ip_inv_close. exact H.
@@ -154,7 +154,7 @@ Qed.
 Lemma under_ep_nids_other : forall e l e' d n k, e' <> e -> under_ep e (l ++ nids (e', d) n k) = under_ep e l.
 Proof.
   intros. unfold under_ep. rewrite filter_app, (filter_none _ _ (nids _ _ _)); [apply app_nil_r|].
-  intros x I. apply nids_in in I. destruct I as (E & _). rewrite E. cbn. apply Nat.eqb_neq. assumption.
+  intros x I. apply nids_in in I. destruct I as (E & _). destruct x as [[e0 d0] n0]. cbn in *. inversion E. subst. apply Nat.eqb_neq. assumption.
 Qed.
 
 (* delivering to a state whose epoch e is dead changes nothing under e *)
@@ -164,9 +164,9 @@ Proof.
   destruct D as [D|[D1 D2]]; [|congruence].
   assert (N : i_ep s <> e) by lia.
   destruct (opens _ f).
-  - destruct (i_pend s); (split; [left; exact D|]); unfold ip_frozen; cbn;
+  - destruct (i_pend s); (split; [left; exact D|]); unfold ip_frozen; cbn -[under_ep under_ep_o nids chunks];
       rewrite under_ep_snoc_other, under_ep_o_snoc_other by exact N; repeat split.
-  - split; [left; exact D|]. unfold ip_frozen; cbn. rewrite under_ep_o_snoc_other by exact N. repeat split.
+  - split; [left; exact D|]. unfold ip_frozen; cbn -[under_ep under_ep_o nids chunks]. rewrite under_ep_o_snoc_other by exact N. repeat split.
 Qed.
 
 Lemma ip_dead_step : forall s ev e, ip_dead s e -> ip_dead (ip_step s ev) e /\ ip_frozen e s (ip_step s ev).
@@ -181,10 +181,10 @@ Proof.
     + split; [destruct D as [D|[D1 D2]]; [left; exact D|right; split; [exact D1|reflexivity]]|].
       repeat split.
     + destruct D as [D|[D1 D2]]; [|congruence]. split; [left; exact D|].
-      unfold ip_frozen; cbn. rewrite under_ep_nids_other by lia. repeat split.
+      unfold ip_frozen; cbn -[under_ep under_ep_o nids chunks]. rewrite under_ep_nids_other by lia. repeat split.
   - (* ReplayOld *)
     destruct (i_ep s) eqn:E; [split; [exact D|apply ip_frozen_refl]|].
-    rewrite <- E. apply ip_dead_deliver. exact D.
+    apply ip_dead_deliver. exact D.
   - (* Corrupt *)
     apply (ip_dead_deliver (ip_setsrv s (S (i_srv s))) Junk e). exact D.
   - (* Cancel *)
@@ -239,15 +239,17 @@ Proof.
   - right. split; congruence.
 Qed.
 
+Lemma ip_finv_samelog : forall s s',
+    i_ep s' = i_ep s -> i_closed s' = i_closed s -> i_log s' = i_log s -> ip_finv s -> ip_finv s'.
+Proof.
+  intros s s' E C L. apply ip_finv_keep; [exact E|congruence|]. intros e H. left. congruence.
+Qed.
+
 Lemma ip_finv_close : forall s, ip_finv s -> ip_finv (ip_close s).
 Proof.
   intros s. apply ip_finv_keep; [reflexivity|reflexivity|].
-  intros e H. rewrite failed_in_split in H. cbn in H. rewrite existsb_app in H.
-  rewrite failed_in_split.
-  destruct (existsb _ (l_out (i_log s))) eqn:A; [left; reflexivity|]. cbn in H.
-  destruct (existsb _ (outs _ _ _)) eqn:B.
-  - right. split; [|reflexivity]. symmetry. eapply existsb_outs_fail. exact B.
-  - cbn in H. left. rewrite H. reflexivity.
+  intros e H. cbn in H. apply failed_in_out in H. destruct H as [H|(o & I & E1 & _)]; [left; exact H|].
+  right. split; [|reflexivity]. apply in_outs_ep in I. congruence.
 Qed.
 
 Lemma ip_finv_deliver : forall s f, ip_finv s -> ip_finv (ip_deliver s f).
@@ -255,16 +257,80 @@ Proof.
   intros s f F. unfold ip_deliver. destruct (i_closed s) eqn:C; [exact F|].
   destruct (opens _ f).
   - destruct (i_pend s); revert F; apply ip_finv_keep; try reflexivity; try (cbn; congruence);
-      intros e H; left; rewrite failed_in_split in *; cbn in H;
-      rewrite ?existsb_snoc in H; cbn in H; rewrite ?andb_false_r, ?orb_false_r in H; exact H.
-  - apply ip_finv_close. revert F. apply ip_finv_keep; [reflexivity|cbn; congruence|].
-    intros e H. rewrite failed_in_split in *. cbn in H. rewrite existsb_snoc in H. cbn in H.
-    rewrite andb_true_r in H.
-    destruct (Nat.eqb (i_ep s) e) eqn:Q.
-    + (* the failed open itself: the state is not yet closed here, but ip_close follows;
-         handled by strengthening below *)
-      left. rewrite orb_true_r in H.
-      (* cannot conclude from F: use the dedicated lemma instead *)
-      exfalso. revert Q. generalize (i_ep s). intros. exact (False_ind _ (ltac:(fail))).
-    + rewrite orb_false_r in H. left. exact H.
+      intros e H; left; cbn in H.
+    + rewrite failed_in_acc in H. apply failed_in_open in H.
+      destruct H as [H|(o & [<-|[]] & _ & E2)]; [exact H|discriminate].
+    + apply failed_in_out in H. destruct H as [H|(o & [<-|[]] & _ & E2)]; [|discriminate].
+      rewrite failed_in_acc in H. apply failed_in_open in H.
+      destruct H as [H|(o & [<-|[]] & _ & E2)]; [exact H|discriminate].
+  - revert F. apply ip_finv_keep; [reflexivity|reflexivity|].
+    intros e H. cbn in H. apply failed_in_out in H. destruct H as [H|(o & I & E1 & _)].
+    + apply failed_in_open in H. destruct H as [H|(o & [<-|[]] & E1 & _)]; [left; exact H|].
+      right. split; [symmetry; exact E1|reflexivity].
+    + right. split; [|reflexivity]. apply in_outs_ep in I. congruence.
 Qed.
+
+Lemma ip_dead_le : forall s e, ip_dead s e -> e <= i_ep s.
+Proof. intros s e [D|[D _]]; lia. Qed.
+
+Lemma ip_finv_step : forall s ev, ip_finv s -> ip_finv (ip_step s ev).
+Proof.
+  intros s ev F.
+  assert (DA : forall i, ip_finv (ip_deliver_at s i)).
+  { intro i. unfold ip_deliver_at. apply ip_finv_deliver. revert F. apply ip_finv_samelog; reflexivity. }
+  destruct ev; cbn [ip_step]; try exact F; try apply DA.
+  - (* Send *)
+    destruct (i_closed s) eqn:C; revert F; apply ip_finv_keep; try reflexivity; try (cbn; congruence);
+      intros e H; cbn in H.
+    + apply failed_in_out in H. destruct H as [H|(o & [<-|[]] & E1 & _)].
+      * left. rewrite failed_in_seal in H. exact H.
+      * right. split; [symmetry; exact E1|reflexivity].
+    + left. rewrite failed_in_wire, failed_in_seal in H. exact H.
+  - (* ReplayOld *)
+    destruct (i_ep s) eqn:E; [exact F|]. apply ip_finv_deliver. exact F.
+  - (* Corrupt *)
+    apply ip_finv_deliver. revert F. apply ip_finv_samelog; reflexivity.
+  - (* Cancel *)
+    destruct (i_pend s); [exact F|]. revert F. apply ip_finv_keep; [reflexivity|reflexivity|].
+    intros e H. cbn in H. apply failed_in_out in H. destruct H as [H|(o & I & E1 & _)]; [left; exact H|].
+    right. split; [|reflexivity]. destruct I as [<-|I]; [symmetry; exact E1|]. apply in_outs_ep in I. congruence.
+  - (* Timeout *)
+    destruct (i_pend s); [exact F|]. apply ip_finv_close. exact F.
+  - (* Disconnect *)
+    destruct (i_closed s); [exact F|]. apply ip_finv_close. exact F.
+  - (* Reconnect *)
+    intros e H. left. cbn.
+    assert (D : ip_dead (if i_closed s then s else ip_close s) e).
+    { destruct (i_closed s); [apply F; exact H|]. apply (ip_finv_close s F). exact H. }
+    apply ip_dead_le in D. destruct (i_closed s); cbn in D; lia.
+Qed.
+
+Lemma ip_finv_init : ip_finv ip_init.
+Proof. intros e H. discriminate. Qed.
+
+Lemma ip_finv_run : forall h s, ip_finv s -> ip_finv (ip_run s h).
+Proof.
+  induction h as [|e h IH]; intros s H; [exact H|]. cbn. apply IH. apply ip_finv_step. exact H.
+Qed.
+
+Lemma ip_run_app : forall h1 h2 s, ip_run s (h1 ++ h2) = ip_run (ip_run s h1) h2.
+Proof. intros. unfold ip_run. apply fold_left_app. Qed.
+
+(* once a failure is on record for key epoch e, no continuation writes, opens or
+   accepts anything under e *)
+Lemma ip_failure_kills_epoch_l : forall h1 h2 e,
+    failed_in (i_log (ip_run ip_init h1)) e = true ->
+    ip_frozen e (ip_run ip_init h1) (ip_run ip_init (h1 ++ h2)).
+Proof.
+  intros h1 h2 e H. rewrite ip_run_app. apply ip_dead_run.
+  apply (ip_finv_run h1 _ ip_finv_init). exact H.
+Qed.
+
+(* the stronger statement "nothing more is SEALED under a failed key" is false for IP:
+   send_bytes encrypts before _send_lines looks at the transport *)
+Definition wit_ip_seal_after_close : list ev := [Send 1 0; Cancel].
+Lemma ip_seal_after_close_l :
+  failed_in (i_log (ip_run ip_init wit_ip_seal_after_close)) 0 = true
+  /\ under_ep 0 (l_seal (i_log (ip_run ip_init (wit_ip_seal_after_close ++ [Send 1 0]))))
+     <> under_ep 0 (l_seal (i_log (ip_run ip_init wit_ip_seal_after_close))).
+Proof. split; [vm_compute; reflexivity|vm_compute; discriminate]. Qed.
